@@ -109,10 +109,18 @@ func NewSched(t *Tape, cfg SchedCfg, nSites int) *Sched {
 }
 
 // DrawSchedCfg draws a scheduling configuration.
-func DrawSchedCfg(t *Tape, nTasks int, estSteps uint64) SchedCfg {
+func DrawSchedCfg(t *Tape, nTasks int, estSteps uint64, typicalOp int) SchedCfg {
 	c := SchedCfg{MaxSteps: 30_000_000}
 	c.Policy = t.Choose("cfg", "policy", NumPolicies)
-	c.Mean = 1 << uint(4+t.Choose("cfg", "quantum_log2", 12)) // 16 .. 32768
+	// mean quantum: from twice the typical operation down to 1/1024 of it
+	c.Mean = (2 * typicalOp) >> uint(t.Choose("cfg", "quantum_log2", 12))
+	// at most about 40 000 hand-offs per run (a hand-off costs microseconds)
+	if lo := int(estSteps / 40000); c.Mean < lo {
+		c.Mean = lo
+	}
+	if c.Mean < 1 {
+		c.Mean = 1
+	}
 	c.PCTDepth = 1 + t.Choose("cfg", "pct_depth", 3)
 	c.EstSteps = estSteps
 	c.Victim = t.Choose("cfg", "victim", nTasks)
